@@ -179,12 +179,35 @@ theorem born_total {K : Type} [AddCommMonoid K] (D n : Nat) (ρ : Tens K) :
 theorem born_sum_order {K : Type} [AddCommMonoid K] (D : Nat) {l1 l2 : List Nat} (h : l1.Perm l2) (ρ : Tens K)
     (idx : Idx) : traceOver D l1 ρ idx = traceOver D l2 ρ idx := traceOver_perm D h ρ idx
 
+/-- **fock_dist_sums_to_trace.**  As a flat list: the entries of the vector `measure_fock` builds (before the division) sum to
+`tr ρ` — for every register size, cutoff, density tensor and list of distinct measured modes in any order -/
+theorem fock_dist_sums_to_trace {K : Type} [AddCommMonoid K] (D n : Nat) (measure : List Nat) (hnd : measure.Nodup)
+    (hlt : ∀ m ∈ measure, m < n) (ρ : Tens K) :
+    (fockDist D n measure ρ).sum = traceOver D (List.range n) ρ (fun _ => 0) := by
+  rw [fockDist_sum D n measure.length measure rfl hnd hlt ρ, bornProb_nil]
+
 /-- the probabilities handed to `choice` sum to one -/
 theorem fock_probs_normalised {K : Type} [Field K] (D n : Nat) (measure : List Nat) (ρ : Tens K)
     (h : (fockDist D n measure ρ).sum ≠ 0) : (fockProbs D n measure ρ).sum = 1 := by
   unfold fockProbs
   simp only [← List.sum_eq_foldl]
   rw [sum_map_div, div_self h]
+
+/-! ### Gaussian back end: arguments of the photon-counting / threshold samplers -/
+
+/-- **gauss_discrete_args.**  `GaussianBackend.measure_fock` / `measure_threshold` hand to the thewalrus samplers exactly
+the covariances and means of the quadratures `x_{modes[0]}, …, x_{modes[k-1]}, p_{modes[0]}, …, p_{modes[k-1]}` of the
+state — for every size `st.n` of the simulator arrays (rows of deleted modes included: a register with holes), every list
+of modes below it, in the order listed -/
+theorem gauss_discrete_args {K : Type} [CommRing K] (st : GS K) (modes : List Nat) (hlt : ∀ m ∈ modes, m < st.n)
+    (a b : Nat) (ha : a < 2 * modes.length) (hb : b < 2 * modes.length) :
+    (gaussDiscreteArgs st modes).cov a b = (toXP st).cov (discreteLabel modes a) (discreteLabel modes b) ∧
+    (gaussDiscreteArgs st modes).mean a = (toXP st).mean (discreteLabel modes a) :=
+  gaussDiscreteArgs_spec st modes hlt a b ha hb
+
+/-- the p-block offset must be the array size: with the number of *live* modes instead (2 of 3 after a deletion)
+the p-quadrature of mode 2 is looked up at position 4 (`p_1`) instead of 5 (seeded change C06-b1) -/
+theorem gauss_discrete_offset_counterexample : discreteIdxs 2 [2] ≠ discreteIdxs 3 [2] := by decide
 
 /-! ### the bosonic rejection sampler (real weights and means) -/
 
@@ -332,6 +355,8 @@ example : (∀ v ∈ ([2, 0, 3] : List Nat), v < 4) ∧ flatIndex 4 [2, 0, 3] = 
 not constant and sums to the trace -/
 example : fockDist 2 3 [2, 0] (fun idx => if idx 0 = idx 1 ∧ idx 2 = idx 3 ∧ idx 4 = idx 5 then (idx 0 + 2 * idx 2 + 4 * idx 4 + 1 : Int) else 0)
     = [4, 12, 6, 14] ∧ (5 : Nat) < 2 ^ 3 := by decide
+/-- array of 4 rows (mode 1 deleted, its row kept), modes (3, 0) measured in descending order -/
+example : (∀ m ∈ ([3, 0] : List Nat), m < 4) ∧ discreteIdxs 4 [3, 0] = [3, 0, 7, 4] := by decide
 /-- a mixture with a negative-weight peak: envelope 5/8 ≥ target 1/2, accepted at u = 1/2, rejected at u = 9/10 -/
 example : let pk : List (Peak Rat) := [⟨3/4, 1/2, 1⟩, ⟨-1/4, 1/2, 1⟩, ⟨1/2, 1/2, 1⟩]
     (∀ p ∈ pk, 0 ≤ p.pref * p.e) ∧ probDistVal pk = 1/2 ∧ probUpbnd pk = 5/8 ∧ accept (1/2) pk = true ∧
